@@ -425,9 +425,11 @@ func NewCallTree() *CallTree {
 // add a new call to the current call tree
 func (c *CallTree) add(from common.Address, to *common.Address, data []byte, value, gas *uint256.Int) {
 	newCall := &Call{
-		From:  from,
-		To:    to,
-		Data:  data,
+		From: from,
+		To:   to,
+		// data usually points into the caller's live memory, which the caller is
+		// free to overwrite after the call: keep a copy
+		Data:  common.CopyBytes(data),
 		Value: value,
 		Gas:   gas,
 
